@@ -204,6 +204,31 @@ func TestVerifC04(t *testing.T) {
 		}
 		o.emit(verifC04Row("gen", v, secs, nsec, body, m, dg.Bytes(), mon))
 	}
+	// "the contracts recompute that same digest from the serialized VAA": so does every node that receives the wire form — the digest of
+	// the DECODED wire bytes is the digest that was signed, also for serialized VAAs beyond a few kilobytes (payloads of 3 900 .. 70 000
+	// bytes, 1 and 19 signatures); monitors only (these rows are not evaluated by the Gallina Keccak)
+	{
+		mon := []string{}
+		for _, plen := range []int{3900, 3972, 3973, 4096, 4097, 5000, 8192, 8193, 70000} {
+			for _, ns := range []int{1, 19} {
+				v, _, _ := verifRandVAA(r, ns, plen, true)
+				m, err := v.Marshal()
+				if err != nil {
+					continue
+				}
+				d, derr := Unmarshal(m)
+				if derr != nil {
+					mon = append(mon, fmt.Sprintf("the wire form of a VAA with a payload of %d bytes and %d signatures is refused by the decoder: %v", plen, ns, derr))
+				} else if d.SigningMsg() != v.SigningMsg() {
+					mon = append(mon, fmt.Sprintf("the digest of the decoded wire form (payload %d bytes, %d signatures, %d wire bytes) is not the digest that was signed: decoded payload %d bytes", plen, ns, len(m), len(d.Payload)))
+				}
+				if len(mon) >= 3 {
+					break
+				}
+			}
+		}
+		o.emit(map[string]interface{}{"k": "c04long", "mon": mon})
+	}
 	// the fixed VAA of coq/props/C04.v (ex_vaa): its digest is an Example there, computed by the Gallina Keccak-256
 	{
 		v := &VAA{Version: 1, GuardianSetIndex: 3, Timestamp: time.Unix(1700000000, 0), Nonce: 7, Sequence: 42, ConsistencyLevel: 1,
